@@ -382,8 +382,8 @@ fn regression_items(_ctx: &Ctx) -> Vec<TotalCase> {
 }
 
 pub fn property() -> Property {
-    let g = G::default().with_digit_sup();
-    let g2 = G::default().depth(3).with_digit_sup();
+    let g = G::default().with_digit_sup().with_pre_inline();
+    let g2 = G::default().depth(3).with_digit_sup().with_pre_inline();
     Property {
         id: "C01",
         level: "exploration",
